@@ -431,10 +431,10 @@ func runC05(w *World, r *Report) {
 	}
 	r.rule("canonical-at-entry", "every admission entry inserts (or hands to the admission path) only behind the pass edge of the canonicality predicate on the admitted amount", 4)
 	for _, row := range []struct{ fn, effect, amount string }{
-		{"CreateLeaf", nAddVertexByID, "trx.Spice"},
-		{"AddLeaf", cn("accountant", "*AccountingBook", "addLeafMemorized"), "leaf.Transaction.Spice"},
+		{"CreateLeaf", nAddVertexByID, "$2.Spice"},
+		{"AddLeaf", cn("accountant", "*AccountingBook", "addLeafMemorized"), "$2.Transaction.Spice"},
 		{"LoadDag", nAddVertexByID, "@vertex.Transaction.Spice"},
-		{"CreateGenesis", nAddVertexByID, "spc"},
+		{"CreateGenesis", nAddVertexByID, "$2"},
 	} {
 		f := w.fx(r, "accountant", "AccountingBook", row.fn)
 		if f == nil {
@@ -442,6 +442,9 @@ func runC05(w *World, r *Report) {
 		}
 		for _, eff := range f.calls(row.effect) {
 			amount := row.amount
+			if strings.HasPrefix(amount, "$2") {
+				amount = f.fn.Params[2].Name() + strings.TrimPrefix(amount, "$2")
+			}
 			if strings.HasPrefix(amount, "@vertex") {
 				_, a := callArgs(eff)
 				amount = pathOf(a[1]) + strings.TrimPrefix(amount, "@vertex")
